@@ -57,6 +57,12 @@ CLAIMED["C19"] = ("other",
     "Fault sequences and delays are not enumerated; fairness of select and go-diameter's dispatch are trusted.",
     "DESIGN.md §4 C19")
 
+CLAIMED["C20"] = ("other",
+    "table agreement between `valid` struct tags and a nil-guard analysis of every configuration dereference in the module (go/types + go/ssa); constant-set agreement rules for service names and schemes; error-propagation rule on ReadConfig",
+    "Decides soundness of validation relative to the runtime for the whole configuration space: every pointer-typed configuration member the module dereferences without a dominating nil test carries `required` (so a validated configuration cannot crash with a nil section), the service names accepted equal those routed and an unknown one is rejected, the scheme validator accepts exactly the served schemes, ReadConfig returns an error whenever Validate does and the configuration in use comes from ReadConfig. Exhaustive over all configuration struct types and all dereference sites.",
+    "Trusted: govalidator rejects a nil pointer tagged required and visits nested structs. Not decided: value validators (host/port/url), non-nil-dereference start-up failures.",
+    "DESIGN.md §4 C20")
+
 # id -> reason, for properties not (yet) claimed
 NOT_APPLICABLE = {
 }
